@@ -34,6 +34,8 @@ class Gen:
         self.known = []        # keys probably in context
         self.tainted = set()   # keys that may hold a definition object
         self.types = {}        # key -> 'l' | 'd' | 'i' (best guess)
+        self.last_err = None   # onError tree of the latest swallowed failing step
+        self.pending = []      # steps to emit right after the current one
 
     def pick_key(self, prefer_known=0.85):
         if self.known and self.rng.random() < prefer_known:
@@ -100,10 +102,52 @@ class Gen:
             return any(self.taints(x) for x in t['l'])
         return any(self.taints(x) for _, x in t['d'])
 
+    def err_path(self, want):
+        """subscripts from runErrors to a `want`-typed ('l'/'d'/None = any container) node of the
+        latest saved customError, or None."""
+        if self.last_err is None:
+            return None
+        found = []
+
+        def go(t, path):
+            if isinstance(t, int) or 'ref' in t:
+                return
+            ty = 'l' if 'l' in t else 'd'
+            if want is None or ty == want:
+                found.append(path)
+            if ty == 'l' and t['l']:
+                go(t['l'][-1], path + [['last']])
+            if ty == 'd':
+                for k, x in t['d']:
+                    go(x, path + [['key', k]])
+        go(self.last_err, [['last'], ['key', 'customError']])
+        return self.rng.choice(found) if found else None
+
+    def err_mutator(self):
+        """a step growing something inside runErrors[-1]['customError'] in place."""
+        rng = self.rng
+        if rng.random() < 0.5:
+            p = self.err_path('l')
+            if p:
+                return {'kind': 'py', 'in': [], 'code': ['append', {'pyref': ['runErrors', p]}, rng.randint(0, 9)]}
+        p = self.err_path('d')
+        if p:
+            return {'kind': 'py', 'in': [], 'code': ['setitem', {'pyref': ['runErrors', p]},
+                                                      rng.choice(SUB_KEYS), rng.randint(0, 9)]}
+        return None
+
+    def err_mutator_into(self, st):
+        m = self.err_mutator()
+        if m:
+            st['code'] = m['code']
+        return bool(m)
+
     def step(self):
         rng = self.rng
-        kind = rng.choices(['set', 'append', 'merge', 'default', 'py', 'copy', 'configvars'],
-                           [24, 22, 16, 8, 14, 6, 6 if not self.clean else 3])[0]
+        if self.pending:
+            return self.pending.pop(0)
+        kind = rng.choices(['set', 'append', 'merge', 'default', 'py', 'copy', 'configvars', 'fail'],
+                           [24, 22, 16, 8, 14, 6, 6 if not self.clean else 3, 11])[0]
         if kind == 'configvars':
             for k in VAR_KEYS:
                 if k not in self.known:
@@ -141,9 +185,43 @@ class Gen:
             st['foreach'] = [self.arg_tree(1) for _ in range(rng.randint(1, 3))]
             bound('i', any(self.taints(t) for t in st['foreach']))
             self.types['i'] = self.type_of(st['foreach'][-1])
-        if kind == 'set':
+        if kind == 'fail':
+            st['swallow'] = rng.random() < 0.8
+            if rng.random() < 0.8:
+                oe = self.arg_tree(2, container=True, empties=0.05)
+                if 'd' in oe and rng.random() < 0.7:
+                    oe['d'].append(['by', {'l': []} if rng.random() < 0.6 else {'d': []}])
+                if rng.random() < 0.3:
+                    # an expression that cannot be resolved when the error is saved
+                    bad = {'ref': [rng.choice(['copy', 'py']), 'nokey']}
+                    if 'd' in oe:
+                        oe['d'].insert(rng.randint(0, len(oe['d'])), ['detail', bad])
+                    else:
+                        oe['l'].insert(rng.randint(0, len(oe['l'])), bad)
+                st['onError'] = oe
+            else:
+                st['onError'] = None
+            if st['swallow']:
+                oe = st['onError']
+                empty = oe is None or oe.get('l') == [] or oe.get('d') == []
+                self.last_err = {'d': []} if empty else oe
+                if rng.random() < 0.55:
+                    m = self.err_mutator()
+                    if m:
+                        self.pending.append(m)
+        elif kind == 'set':
             st['pairs'] = []
             for k in rng.sample(DATA_KEYS, rng.randint(1, 2)):
+                p = self.err_path(None) if rng.random() < 0.3 else None
+                if p:
+                    # keep a by-reference handle on (part of) the saved customError
+                    st['pairs'].append([k, {'pyref': ['runErrors', p]}])
+                    bound(k, False)
+                    node = self.last_err
+                    for sel in p[2:]:
+                        node = node['l'][-1] if sel[0] == 'last' else dict(node['d'])[sel[1]]
+                    self.types[k] = self.type_of(node)
+                    continue
                 t = self.arg_tree(2, empties=0.2)
                 st['pairs'].append([k, t])
                 bound(k, self.taints(t))
@@ -170,6 +248,8 @@ class Gen:
                 st['pairs'].append([k, t])
                 bound(k, k in self.tainted or self.taints(t))
                 self.types.setdefault(k, self.type_of(t))
+        elif kind == 'py' and self.last_err is not None and rng.random() < 0.3 and self.err_mutator_into(st):
+            pass
         elif kind == 'py':
             is_append = rng.random() < 0.65
             k = self.target(in_keys, 'l' if is_append else 'd')
